@@ -85,7 +85,7 @@ class Func:
         # terminator conditions are elements of their block already
 
     def key(self):
-        return (self.file, self.line, self.qn)
+        return (self.file, self.line, self.qn, getattr(self, "sig", 0))
 
     def __repr__(self):
         return "<Func %s %s:%d>" % (self.qn, self.file, self.line)
@@ -353,10 +353,14 @@ class Program:
             for g in d["globals"]:
                 self.globals.append((u, g))
             for fd in d["functions"]:
-                key = (fd["file"], fd["line"], fd["qn"])
+                f = Func(fd, u)
+                # identical text -> same function seen through another unit (headers, templates);
+                # different text at one position -> a .c file included under other macros (decode_cobs.c)
+                sig = hash(tuple(show(e) for b, i, e in f.elements()))
+                key = (fd["file"], fd["line"], fd["qn"], sig)
                 if key in self.functions:
                     continue
-                f = Func(fd, u)
+                f.sig = sig
                 self.functions[key] = f
                 self.by_name[f.name].append(f)
                 self.by_qn[f.qn].append(f)
@@ -386,6 +390,12 @@ class Program:
         if len(nz) == 1:
             return nz[0]
         return c[0]
+
+    def func_in_unit(self, name, unit_suffix):
+        for f in self.by_name.get(name, []) + self.by_qn.get(name, []):
+            if f.unit.path.endswith(unit_suffix):
+                return f
+        return None
 
     def funcs_in(self, files):
         out = []
